@@ -1050,6 +1050,14 @@ pub fn execute_interleaved(cases: &[Case], migrate: bool) -> Vec<Option<(Outcome
 /// get_authenticator → SigV4Authenticator::validate_signature, with a caller-chosen tolerance (seconds) for the timestamp.
 #[cfg(feature = "unstable-api")]
 pub fn execute_direct(case: &Case, tolerance_s: i64) -> Record {
+    execute_direct_after(case, tolerance_s, None)
+}
+
+/// As `execute_direct`; with `earlier = Some((region, service))` the authenticator is first used — prevalidated and run
+/// through `validate_signature` with a provider of its own — for that other scope (a front end that tries its services in
+/// turn), then for the case's. What an authenticator was used for before is no input of the decision.
+#[cfg(feature = "unstable-api")]
+pub fn execute_direct_after(case: &Case, tolerance_s: i64, earlier: Option<(&str, &str)>) -> Record {
     use scratchstack_aws_signature::canonical::CanonicalRequest;
     let req = match build_request(&case.wire) {
         Ok(r) => r,
@@ -1092,6 +1100,25 @@ pub fn execute_direct(case: &Case, tolerance_s: i64) -> Record {
         }
         Ok(Err(e)) => Outcome::Err(describe_error(Box::new(e))),
         Ok(Ok((auth, parts, body))) => {
+            if let Some((er, es)) = earlier {
+                let warm = catch_unwind(AssertUnwindSafe(|| {
+                    let _ = auth.prevalidate(er, es, to_datetime(cfg.now), chrono::Duration::seconds(tolerance_s));
+                    let mut warm_prov = Prov::new(case.script.clone());
+                    warm_prov.contract_panics = false;
+                    let mut fut = Box::pin(async {
+                        let _ = auth.validate_signature(er, es, to_datetime(cfg.now), chrono::Duration::seconds(tolerance_s), &mut warm_prov).await;
+                    });
+                    let w = noop_waker();
+                    let mut cx = Context::from_waker(&w);
+                    for _ in 0..1000 {
+                        if fut.as_mut().poll(&mut cx).is_ready() {
+                            break;
+                        }
+                    }
+                }));
+                let _ = warm;
+                let _ = take_panic();
+            }
             let fut = async {
                 let resp = auth.validate_signature(&cfg.region, &cfg.service, to_datetime(cfg.now), chrono::Duration::seconds(tolerance_s), &mut prov).await?;
                 Ok::<_, BoxError>((parts, body, resp))
